@@ -476,9 +476,13 @@ class Diff(Suite):
         # by prefetch() from oracle order; here a cache miss costs one process spawn)
         d = self._delta_of(c)
         al = []
-        if d is not None:
+        r = self._impl.get(self.key(c)) or {}
+        cands = (r.get("extra") or {}).get("cands")
+        if cands is not None:
+            al = [tuple(x) for x in cands]      # the index's own candidate function (every probe position)
+        elif d is not None:
             try:
-                al = D.copy_starts(d)
+                al = D.copy_starts(d)           # large targets: candidates read off the copy commands
             except Exception:
                 al = []
         return "c06_run_diff %s %s [%s]" % (D.coq_segs(c["src"]), D.coq_segs(c["tgt"]),
